@@ -45,6 +45,7 @@ inductive FlagId where
 inductive Eff where
   | emit (op : Nat)
   | loopBegin | loopEnd
+  | codePush | codePop               -- CodePush / CodePop: a stored body does not see the loops around its definition
   | breakCont                       -- BreakPush / ContinuePush guarded by `loopLayer == 0 → addErr`
   | flagsPush | flagsPop
   | setFlag (f : FlagId) (v : Bool)
